@@ -716,7 +716,7 @@ def assemble(unit_path: str, contracts=None, canary: bool = False) -> Assembled:
                 info.gen_start = start
                 info.gen_end = sum(len(s.text.encode()) for s in segs)
                 fns.append(info)
-            elif d in ('unit', 'note', 'serves', 'bodies'):
+            elif d in ('unit', 'note', 'serves', 'bodies', 'rlimit'):
                 pass
             else:
                 raise ContractError('%s:%d: unknown directive //@%s' % (path, ln, d))
